@@ -135,6 +135,9 @@ def oracle(case, ctx):
     ctx.evaluated()
     s = bc.prepare(case)
     s.yraw = case.get("yinp")
+    if s.node is not None and any(n.kind == "Planar" for n in s.node.walk()) and bc.tree_has_degenerate_planar(s.node, s.x, s.c):
+        ctx.inconcl("planar_numerically_singular")
+        return
     nontrivial = check_roundtrip(s, ctx, sharp=(s.kind == "leaf"))
     # every leaf occurrence inside a tree is ALSO checked, sharply, on the input it actually received
     if s.kind == "tree" and s.node is not None and s.invertible:
